@@ -3,6 +3,7 @@
 //!   tfmc run <PROPERTY> --tier quick|thorough --evidence <file> --replays <dir> --known <file>
 //!   tfmc replay <replay.json>
 mod api;
+mod pairs;
 mod props;
 mod run;
 mod util;
@@ -28,18 +29,12 @@ fn main() {
             let replays = arg_after(&args, "--replays", "/verif/replays");
             let known = arg_after(&args, "--known", "/verif/known_findings.json");
             let mut r = Runner::new(&id, &tier, &known);
-            let code = match id.as_str() {
-                "C07" => {
-                    props::c07::run(&mut r);
-                    r.finish(
-                        &evidence,
-                        &replays,
-                        "every (a,b) pair of the stated alphabets is one state; each is judged through no_overlap, is_valid, both TryFrom impls and both round trips against RN(a+b)==a; a pair is distinct by its 128 bits",
-                        &["IEEE-754 round-to-nearest-even hardware addition (cross-checked against the exact long-accumulator sum near every threshold)", "TwoFloat is #[repr(C)] {hi,lo} (raw construction by transmute)"],
-                        serde_json::json!({}),
-                    )
+            let code = match props::registry(&id) {
+                Some(e) => {
+                    (e.run)(&mut r);
+                    r.finish(&evidence, &replays, e.rule, e.assumptions, serde_json::json!({}))
                 }
-                _ => {
+                None => {
                     eprintln!("unknown property {}", id);
                     2
                 }
@@ -53,9 +48,9 @@ fn main() {
             let call = v["call"].as_str().unwrap_or("");
             let clause = v["clause"].as_str().unwrap_or("");
             let a: Vec<u64> = v["args"].as_array().map(|a| a.iter().map(|x| util::parse_hex_u64(x.as_str().unwrap())).collect()).unwrap_or_default();
-            let verdict = match prop {
-                "C07" => props::c07::replay(call, clause, &a),
-                _ => {
+            let verdict = match props::registry(prop) {
+                Some(e) => (e.replay)(call, clause, &a),
+                None => {
                     eprintln!("unknown property {}", prop);
                     std::process::exit(2);
                 }
